@@ -193,7 +193,54 @@ func shapeC08(pk map[string]*pkgInfo) []fact {
 			"Connection.prefetch assigns cx.buf only a reslice of cx.buf or append(cx.buf, ...): the temporary pooled chunk never becomes the buffer"})
 	}
 	out = append(out, shapeC08Udp(l4)...)
+	out = append(out, shapeC13Wg(l4)...)
 	return out
+}
+
+// C13: where the listener wrapper registers a handle goroutine with its WaitGroup
+func shapeC13Wg(l4 *pkgInfo) []fact {
+	if l4 == nil {
+		return nil
+	}
+	norm := func(n ast.Node) string { return strings.Join(strings.Fields(l4.src(n)), "") }
+	ok := false
+	if loop := l4.findFunc("listener", "loop"); loop != nil {
+		// in some block of loop: `l.wg.Add(1)` immediately followed by `go l.handle(conn)`, and no other `go l.handle`
+		pairs, gos := 0, 0
+		ast.Inspect(loop.Body, func(n ast.Node) bool {
+			if gs, isGo := n.(*ast.GoStmt); isGo && strings.HasPrefix(norm(gs.Call), "l.handle(") {
+				gos++
+			}
+			bl, isBlock := n.(*ast.BlockStmt)
+			if !isBlock {
+				return true
+			}
+			for i := 0; i+1 < len(bl.List); i++ {
+				if norm(bl.List[i]) == "l.wg.Add(1)" {
+					if gs, isGo := bl.List[i+1].(*ast.GoStmt); isGo && strings.HasPrefix(norm(gs.Call), "l.handle(") {
+						pairs++
+					}
+				}
+			}
+			return true
+		})
+		addsInHandle := 0
+		if h := l4.findFunc("listener", "handle"); h != nil {
+			ast.Inspect(h.Body, func(n ast.Node) bool {
+				if ce, isCall := n.(*ast.CallExpr); isCall && strings.HasSuffix(norm(ce.Fun), "wg.Add") {
+					addsInHandle++
+				}
+				return true
+			})
+		}
+		ok = pairs == 1 && gos == 1 && addsInHandle == 0
+	}
+	v := "false"
+	if ok {
+		v = "true"
+	}
+	return []fact{{"layer4_listener_wg_add_before_go", "bool", v,
+		"listener.loop executes l.wg.Add(1) immediately before its only `go l.handle(conn)`, and handle itself never calls wg.Add"}}
 }
 
 // UDP datagram buffers (model/UdpPool.v)
@@ -680,8 +727,46 @@ func emitAccessC08(pk map[string]*pkgInfo) string {
 		}
 		fmt.Fprintf(&b, "  \"%s\"", l)
 	}
+	b.WriteString("\n].\n\n")
+	// package-level sync.Pool variables: objects taken from them are handed from one connection to
+	// the next, so they are shared mutable state whose objects must not carry per-connection state
+	var pools []string
+	for _, pn := range names {
+		p := pk[pn]
+		for _, f := range p.files {
+			for _, d := range f.Decls {
+				gd, ok := d.(*ast.GenDecl)
+				if !ok || gd.Tok != token.VAR {
+					continue
+				}
+				for _, sp := range gd.Specs {
+					vs := sp.(*ast.ValueSpec)
+					for i, nm := range vs.Names {
+						isPool := vs.Type != nil && strings.Contains(p.src(vs.Type), "sync.Pool")
+						if i < len(vs.Values) {
+							v := strings.Join(strings.Fields(p.src(vs.Values[i])), "")
+							if strings.HasPrefix(v, "sync.Pool{") || strings.HasPrefix(v, "&sync.Pool{") || strings.HasPrefix(v, "new(sync.Pool)") {
+								isPool = true
+							}
+						}
+						if isPool {
+							pools = append(pools, p.name+"."+nm.Name)
+						}
+					}
+				}
+			}
+		}
+	}
+	sort.Strings(pools)
+	b.WriteString("(* package-level sync.Pool variables of the translated packages *)\n")
+	b.WriteString("Definition shared_pools : list string := [\n")
+	for i, l := range pools {
+		if i > 0 {
+			b.WriteString(";\n")
+		}
+		fmt.Fprintf(&b, "  \"%s\"", l)
+	}
 	b.WriteString("\n].\n")
-	_ = token.NoPos
 	return b.String()
 }
 
